@@ -810,3 +810,157 @@ Proof.
   unfold values_ok. apply forallb_forall. intros s Hs. rewrite Forall_forall in A.
   apply Z.eqb_eq. apply A. exact Hs.
 Qed.
+
+(* ---- emitted timestamps are strictly increasing; the last value is the total ---- *)
+
+Lemma emit_mids_fst T Lv Tot mids :
+  map fst (emit_mids T Lv Tot mids) = filter (fun w => w >? T) (map fst mids).
+Proof.
+  unfold emit_mids. induction mids as [|m r IH]; [reflexivity|].
+  cbn [flat_map map filter]. rewrite map_app, IH. destruct (fst m >? T); reflexivity.
+Qed.
+
+Lemma filter_gt_sorted T : forall L,
+  StronglySorted Z.lt L -> Forall (fun w => T <= w) L ->
+  let F := filter (fun w => w >? T) L in
+  StronglySorted Z.lt (T :: F) /\ last (T :: F) 0 = last (T :: L) 0.
+Proof.
+  intros L Hs Hge. cbv zeta. destruct L as [|w L']; [split; [repeat constructor|reflexivity]|].
+  apply StronglySorted_inv in Hs as [Hs' Hw]. apply Forall_cons_iff in Hge as [Hw0 _].
+  assert (HL' : filter (fun x => x >? T) L' = L').
+  { apply filter_all. eapply Forall_impl; [|exact Hw]. intros x Hx; cbv beta in Hx. apply Z.gtb_lt. lia. }
+  cbn [filter]. rewrite HL'. destruct (w >? T) eqn:E.
+  - apply Z.gtb_lt in E. split; [|reflexivity]. constructor; [constructor; assumption|].
+    constructor; [exact E|]. eapply Forall_impl; [|exact Hw]. intros x Hx; cbv beta in Hx. lia.
+  - rewrite Z.gtb_ltb in E. apply Z.ltb_ge in E. assert (w = T) by lia. subst w.
+    split; [constructor; assumption|]. rewrite !last_cons. reflexivity.
+Qed.
+
+Lemma expect_sorted : forall qs prevT prev,
+  q_chain prevT qs ->
+  StronglySorted Z.lt (map fst (expect prev qs)) /\
+  Forall (fun t => match prevT with Some T => T < t | None => True end) (map fst (expect prev qs)) /\
+  (qs <> [] -> last (map fst (expect prev qs)) 0 = q_end (last qs (mkQ 0 0 [] 0))).
+Proof.
+  induction qs as [|q r IH]; intros prevT prev Hc; [split; [constructor|split; [constructor|congruence]]|].
+  cbn [q_chain] in Hc. destruct Hc as (Hok & HT & Hc).
+  cbn [expect]. set (B := match prev with None => q_v0 q | Some (Lv, Tot) => Tot + step Lv (q_v0 q) end).
+  rewrite map_app. cbn [map fst]. rewrite emit_mids_fst.
+  destruct Hok as (Hs & _ & Hhd).
+  assert (Hge : Forall (fun w => q_t0 q <= w) (map fst (q_mids q))).
+  { destruct (q_mids q) as [|m ms]; [constructor|]. destruct Hhd as [H0 _]. cbn [map] in Hs |- *.
+    constructor; [exact H0|]. apply StronglySorted_inv in Hs as [_ H]. eapply Forall_impl; [|exact H].
+    intros x Hx; cbv beta in Hx. lia. }
+  destruct (filter_gt_sorted (q_t0 q) _ Hs Hge) as [FS FL]. cbv zeta in FS, FL.
+  set (F := filter (fun w => w >? q_t0 q) (map fst (q_mids q))) in *.
+  assert (Hend : last (q_t0 q :: F) 0 = q_end q) by (rewrite FL; unfold q_end; apply last_cons).
+  assert (Hle : forall x, In x (q_t0 q :: F) -> x <= q_end q).
+  { intros x Hx. rewrite <- Hend. apply sorted_le_last_Z; assumption. }
+  destruct (IH (Some (q_end q)) (Some (q_vl q, B + (q_clast q - q_v0 q))) Hc) as (IS & IF & IL).
+  split; [|split].
+  - change (q_t0 q :: F ++ map fst (expect (Some (q_vl q, B + (q_clast q - q_v0 q))) r))
+      with ((q_t0 q :: F) ++ map fst (expect (Some (q_vl q, B + (q_clast q - q_v0 q))) r)).
+    apply sorted_app; [exact FS|exact IS|].
+    intros x y Hx Hy. rewrite Forall_forall in IF. specialize (IF y Hy). cbv beta in IF. specialize (Hle x Hx). lia.
+  - change (q_t0 q :: F ++ map fst (expect (Some (q_vl q, B + (q_clast q - q_v0 q))) r))
+      with ((q_t0 q :: F) ++ map fst (expect (Some (q_vl q, B + (q_clast q - q_v0 q))) r)).
+    apply Forall_app. split.
+    + destruct prevT as [T|]; [|rewrite Forall_forall; intros; exact I].
+      apply StronglySorted_inv in FS as [_ FS]. constructor; [exact HT|].
+      eapply Forall_impl; [|exact FS]. intros x Hx; cbv beta in Hx. lia.
+    + destruct prevT as [T|]; [|rewrite Forall_forall; intros; exact I].
+      eapply Forall_impl; [|exact IF]. intros x Hx; cbv beta in Hx.
+      specialize (Hle (q_t0 q) (or_introl eq_refl)). lia.
+  - intros _. destruct r as [|q' r'].
+    + cbn [expect map]. rewrite app_nil_r. cbn [last]. 
+      change (q_t0 q :: F) with (q_t0 q :: F) in Hend. exact Hend.
+    + change (q_t0 q :: F ++ map fst (expect (Some (q_vl q, B + (q_clast q - q_v0 q))) (q' :: r')))
+        with ((q_t0 q :: F) ++ map fst (expect (Some (q_vl q, B + (q_clast q - q_v0 q))) (q' :: r'))).
+      assert (Hne : map fst (expect (Some (q_vl q, B + (q_clast q - q_v0 q))) (q' :: r')) <> [])
+        by (cbn [expect map app]; discriminate).
+      rewrite last_app_ne by exact Hne. rewrite (IL ltac:(discriminate)).
+      change (last (q :: q' :: r') (mkQ 0 0 [] 0)) with (last (q' :: r') (mkQ 0 0 [] 0)). reflexivity.
+Qed.
+
+Lemma last_concat {A} (d : A) : forall bs : list (list A),
+  bs <> [] -> Forall (fun b => b <> []) bs -> last (concat bs) d = last (last bs []) d.
+Proof.
+  induction bs as [|b r IH]; intros Hne Hall; [congruence|].
+  apply Forall_cons_iff in Hall as [Hb Hall]. cbn [concat]. destruct r as [|b' r'].
+  - cbn [concat last]. rewrite app_nil_r. reflexivity.
+  - rewrite last_app_ne.
+    + rewrite IH by (try discriminate; exact Hall). reflexivity.
+    + apply Forall_cons_iff in Hall as [Hb' _]. cbn [concat]. destruct b'; [congruence|discriminate].
+Qed.
+
+Lemma level1_full res nc data :
+  valid_counter res data ->
+  exists l1 emitted,
+    level1 res nc data = Some l1 /\ read_counter l1 = Some emitted /\
+    Forall (fun s => snd s = adj_at (keep_nonnan data) (fst s)) emitted /\
+    StronglySorted Z.lt (map fst emitted) /\
+    (keep_nonnan data = [] -> emitted = []) /\
+    (keep_nonnan data <> [] ->
+       emitted <> [] /\ snd (last emitted (0, 0)) = adj (map snd (keep_nonnan data))).
+Proof.
+  intros Hv. pose proof Hv as (Hr & Hstrict & _).
+  destruct (level1_read res Hr nc data Hv) as (batches & E & Hcat & Hcb & Hsep & R).
+  set (emitted := expect None (map (q_of res) batches)) in *.
+  assert (A : Forall (fun s => snd s = adj_at (keep_nonnan data) (fst s)) emitted).
+  { pose proof (expect_adj res Hr batches [] Hcb Hsep ltac:(intros s s' [])) as A.
+    cbn [app] in A. rewrite Hcat in A. exact A. }
+  pose proof (chain_batches res Hr batches None Hcb Hsep I) as Hch.
+  destruct (expect_sorted (map (q_of res) batches) None None Hch) as (ES & _ & EL).
+  exists (map (float_batch cw res) batches), emitted.
+  split; [exact E|]. split; [exact R|]. split; [exact A|]. split; [exact ES|]. split.
+  - intros Hd. rewrite Hd in Hcat. destruct batches as [|b r]; [reflexivity|].
+    apply Forall_cons_iff in Hcb as [([Hne _] & _) _]. cbn [concat] in Hcat.
+    apply app_eq_nil in Hcat as [Hb _]. congruence.
+  - intros Hd.
+    assert (Hbne : batches <> []) by (intro Eb; rewrite Eb in Hcat; cbn in Hcat; congruence).
+    assert (Hene : emitted <> [])
+      by (unfold emitted; destruct batches; [congruence|cbn [map expect app]; discriminate]).
+    split; [exact Hene|].
+    set (e := last emitted (0, 0)).
+    assert (Hin : In e emitted) by (apply last_in; exact Hene).
+    rewrite Forall_forall in A. rewrite (A e Hin).
+    (* the last emitted timestamp is the last raw timestamp *)
+    assert (Hmne : map (q_of res) batches <> []) by (destruct batches; [congruence|discriminate]).
+    specialize (EL Hmne). fold emitted in EL.
+    assert (Ee : fst e = last (map fst emitted) 0).
+    { unfold e. change 0 with (fst (0, 0)). rewrite last_map. reflexivity. }
+    assert (Hlastq : last (map (q_of res) batches) (mkQ 0 0 [] 0) = q_of res (last batches [])).
+    { clear - Hbne. induction batches as [|b r IH]; [congruence|]. destruct r as [|b' r']; [reflexivity|].
+      change (last (map (q_of res) (b :: b' :: r')) (mkQ 0 0 [] 0)) with (last (map (q_of res) (b' :: r')) (mkQ 0 0 [] 0)).
+      rewrite IH by discriminate. reflexivity. }
+    assert (Hlb : In (last batches []) batches) by (apply last_in; exact Hbne).
+    rewrite Forall_forall in Hcb. pose proof (Hcb _ Hlb) as Hlcb.
+    destruct (q_of_ok res Hr _ Hlcb) as (_ & Hqe & _ & _).
+    rewrite Ee, EL, Hlastq, Hqe.
+    assert (Hbs : Forall (fun b : list (Z * Z) => b <> []) batches).
+    { rewrite Forall_forall. intros b Hb. destruct (Hcb b Hb) as ([H _] & _). exact H. }
+    assert (Hld : last_t (last batches []) = last_t (keep_nonnan data)).
+    { unfold last_t. rewrite <- Hcat. rewrite (last_concat (0, 0) batches Hbne Hbs). reflexivity. }
+    rewrite Hld. rewrite adj_at_upto. rewrite upto_all; [reflexivity|].
+    apply sorted_le_last. apply sorted_lt_le_Z. apply keep_nonnan_sorted_lt. exact Hstrict.
+Qed.
+
+Lemma level1_pred res1 res2 nc data :
+  valid_input res1 res2 data = true ->
+  exists l1 emitted,
+    level1 res1 nc data = Some l1 /\ read_counter l1 = Some emitted /\
+    level_ok (keep_nonnan data) emitted = true.
+Proof.
+  intros Hv. destruct (level1_full res1 nc data (valid_input_counter _ _ _ Hv)) as (l1 & em & E & R & A & S & Z0 & L).
+  exists l1, em. split; [exact E|]. split; [exact R|].
+  unfold level_ok, reads_ok, values_ok. apply andb_true_iff. split; [apply andb_true_iff; split|].
+  - apply forallb_forall. intros s Hs. rewrite Forall_forall in A. apply Z.eqb_eq. apply A. exact Hs.
+  - clear - S. induction S as [|a l _ IH Ha]; [reflexivity|]. destruct l as [|b l']; [reflexivity|].
+    change (strictly_inc (a :: b :: l')) with ((a <? b) && strictly_inc (b :: l')).
+    apply Forall_cons_iff in Ha as [Hab _]. rewrite IH.
+    replace (a <? b) with true by (symmetry; apply Z.ltb_lt; exact Hab). reflexivity.
+  - unfold last_ok. destruct (keep_nonnan data) as [|s0 d'] eqn:Ed.
+    + rewrite (Z0 eq_refl). reflexivity.
+    + destruct (L ltac:(discriminate)) as [Hne Hl]. destruct em as [|e0 em']; [congruence|].
+      apply Z.eqb_eq. exact Hl.
+Qed.
